@@ -94,7 +94,7 @@ def cmd_run(names):
             hit = []
             out_all = ""
             for prop in props_of(e, allprops):
-                r = subprocess.run([os.path.join(HERE, "bin", "otterlint"), "-property", prop, "-repo", d, "-verif", HERE, "-no-evidence"], capture_output=True, text=True, env=ENV)
+                r = subprocess.run([os.environ.get("OTTERLINT", os.path.join(HERE, "bin", "otterlint")), "-property", prop, "-repo", d, "-verif", HERE, "-no-evidence"], capture_output=True, text=True, env=ENV)
                 out_all += r.stdout + r.stderr
                 if r.returncode == 2:
                     print("%-40s CHECKER BROKEN on %s\n%s" % (name, prop, r.stderr[-1500:]))
